@@ -316,6 +316,18 @@ def run_flags_supported(task):
         if r.v != 0:
             out['violations'].append(dict(role='supported-mapping-rejected', summary='-E zz=%s rejected' % key.decode(),
                                           flag='zz=' + key.decode()))
+    # a repeated key: every mapping given on the command line is validated, not only the last one
+    for first, second in ((b'jinja', b'html'), (b'html', b'jinja'), (b'nope', b'nope')):
+        args = mk_struct(prog, 'Args', extensions=VecVal([Tuple(new_string(I, b'tpl'), new_string(I, first)),
+                                                           Tuple(new_string(I, b'tpl'), new_string(I, second))]),
+                         disabled_validators=VecVal(()), enabled_validators=VecVal(()), ignore=VecVal(()),
+                         globs=VecVal(()), command=NONE)
+        r = I.call_fn(f_val, [Ref(Cell(args), ()), Ref(Cell(keyset), ())])
+        out['obligations'] += 1
+        if r.v == 0:
+            out['violations'].append(dict(role='unsupported-mapping-accepted',
+                                          summary='-E tpl=%s -E tpl=%s accepted' % (first.decode(), second.decode()),
+                                          flags=['tpl=' + first.decode(), 'tpl=' + second.decode()]))
     stats.paths += 1
     out['cover']['supported-accepted'] = 1
     out.update(Agg(PROP, 'x').stats_from(stats))
@@ -386,6 +398,16 @@ def confirm(binary, v, idx, names):
     if 'path' not in v:
         # flag handling: replay through the CLI
         flag = v.get('flag', '')
+        if 'flags' in v:
+            ea = []
+            for fl in v['flags']:
+                ea += ['-E', fl]
+            r = run_scan(binary, {'a.py': b'x = 1\n'}, ['a.py'], extra_args=ea)
+            v['observed'] = r
+            if r['code'] == 0:
+                v['confirmed'] = True
+                v['replay'] = save_replay(PROP, '%s-%d' % (v['role'], idx), {'a.py': b'x = 1\n'}, ' '.join(ea) + ' a.py', v['summary'], v)
+            return v
         r = run_scan(binary, {'a.py': b'x = 1\n'}, ['a.py'], extra_args=['-E', flag])
         want_fail = v['role'] in ('kv-without-equals-accepted', 'unsupported-mapping-accepted')
         bad = (r['code'] == 0) if want_fail else (r['code'] != 0)
